@@ -9,6 +9,7 @@ import (
 	"go/ast"
 	"go/constant"
 	"go/types"
+	"golang.org/x/tools/go/ssa"
 	"reflect"
 	"strings"
 )
@@ -57,11 +58,11 @@ var expectedTags = map[string]map[string]string{
 	repoModule + "/types.Assertion": {"XMLName": "urn:oasis:names:tc:SAML:2.0:assertion Assertion", "Version": "Version,attr", "ID": "ID,attr",
 		"IssueInstant": "IssueInstant,attr", "Issuer": "Issuer", "Subject": "Subject", "Conditions": "Conditions",
 		"AttributeStatement": "AttributeStatement", "AuthnStatement": "AuthnStatement", "SignatureValidated": "-"},
-	repoModule + "/types.Status":       {"XMLName": "urn:oasis:names:tc:SAML:2.0:protocol Status", "StatusCode": "StatusCode"},
-	repoModule + "/types.StatusCode":   {"XMLName": "urn:oasis:names:tc:SAML:2.0:protocol StatusCode", "Value": "Value,attr"},
-	repoModule + "/types.Issuer":       {"XMLName": "urn:oasis:names:tc:SAML:2.0:assertion Issuer", "Value": ",chardata"},
-	repoModule + "/types.Subject":      {"XMLName": "urn:oasis:names:tc:SAML:2.0:assertion Subject", "NameID": "NameID", "SubjectConfirmation": "SubjectConfirmation"},
-	repoModule + "/types.NameID":       {"XMLName": "urn:oasis:names:tc:SAML:2.0:assertion NameID", "Value": ",chardata"},
+	repoModule + "/types.Status":     {"XMLName": "urn:oasis:names:tc:SAML:2.0:protocol Status", "StatusCode": "StatusCode"},
+	repoModule + "/types.StatusCode": {"XMLName": "urn:oasis:names:tc:SAML:2.0:protocol StatusCode", "Value": "Value,attr"},
+	repoModule + "/types.Issuer":     {"XMLName": "urn:oasis:names:tc:SAML:2.0:assertion Issuer", "Value": ",chardata"},
+	repoModule + "/types.Subject":    {"XMLName": "urn:oasis:names:tc:SAML:2.0:assertion Subject", "NameID": "NameID", "SubjectConfirmation": "SubjectConfirmation"},
+	repoModule + "/types.NameID":     {"XMLName": "urn:oasis:names:tc:SAML:2.0:assertion NameID", "Value": ",chardata"},
 	repoModule + "/types.SubjectConfirmation": {"XMLName": "urn:oasis:names:tc:SAML:2.0:assertion SubjectConfirmation", "Method": "Method,attr",
 		"SubjectConfirmationData": "SubjectConfirmationData"},
 	repoModule + "/types.SubjectConfirmationData": {"XMLName": "urn:oasis:names:tc:SAML:2.0:assertion SubjectConfirmationData",
@@ -129,7 +130,72 @@ func allExpectedStructs() []string {
 	return out
 }
 
+// noCustomUnmarshal: the decode contract of encoding/xml (struct-tag driven binding) only applies to types without
+// their own UnmarshalXML / UnmarshalXMLAttr / UnmarshalText methods.
+func noCustomUnmarshal(w *World) (bool, string) {
+	var bad []string
+	n := 0
+	for q := range expectedTags {
+		pp, name := splitQual(q)
+		p := w.AllPkgs[pp]
+		if p == nil {
+			continue
+		}
+		o := p.Scope().Lookup(name)
+		if o == nil {
+			continue
+		}
+		n++
+		for _, t := range []types.Type{o.Type(), types.NewPointer(o.Type())} {
+			ms := types.NewMethodSet(t)
+			for i := 0; i < ms.Len(); i++ {
+				switch ms.At(i).Obj().Name() {
+				case "UnmarshalXML", "UnmarshalXMLAttr", "UnmarshalText":
+					bad = append(bad, name+"."+ms.At(i).Obj().Name())
+				}
+			}
+		}
+	}
+	for _, name := range []string{"UnverifiedBaseResponse"} {
+		o := w.AllPkgs[repoModule+"/types"].Scope().Lookup(name)
+		if o == nil {
+			continue
+		}
+		n++
+		for _, t := range []types.Type{o.Type(), types.NewPointer(o.Type())} {
+			ms := types.NewMethodSet(t)
+			for i := 0; i < ms.Len(); i++ {
+				switch ms.At(i).Obj().Name() {
+				case "UnmarshalXML", "UnmarshalXMLAttr", "UnmarshalText":
+					bad = append(bad, name+"."+ms.At(i).Obj().Name())
+				}
+			}
+		}
+	}
+	if len(bad) > 0 {
+		return false, "custom XML decoding methods bypass the tag-driven binding: " + strings.Join(bad, ", ")
+	}
+	return true, fmt.Sprintf("%d decoded struct types use the tag-driven binding only", n)
+}
+
 var schemaChecks = []schemaCheck{
+	{"schema.templates.shape", []string{"C16"}, func(w *World) (bool, string) {
+		facts, problems := templateFacts(w)
+		if len(problems) > 0 {
+			return false, strings.Join(problems, "; ")
+		}
+		if len(facts) == 0 {
+			return false, "no html/template constants found"
+		}
+		for _, f := range facts {
+			if !f.wellOK {
+				return false, f.fn + ": " + f.why
+			}
+		}
+		return true, fmt.Sprintf("%d html/template constants: one auto-submitting POST form, action {{.URL}}, hidden payload and optional RelayState inputs, every action a complete double-quoted attribute value", len(facts))
+	}},
+	{"schema.templates.fields", []string{"C16"}, dataFieldsAreStrings},
+	{"schema.decode.reflective", []string{"C20", "C08", "C01", "C04", "C10"}, noCustomUnmarshal},
 	{"schema.uuid.string", []string{"C18"}, uuidStringShape},
 	{"schema.unverified.free", []string{"C20"}, func(w *World) (bool, string) {
 		ok1, d1 := freeFunc(w, "DecodeUnverifiedBaseResponse")
@@ -267,6 +333,189 @@ func freeFunc(w *World, name string) (bool, string) {
 		return false, name + " takes more than the encoded message"
 	}
 	return true, name + " is a free function of the encoded message only"
+}
+
+// ---- POST-binding form templates (C16) ----
+
+type tmplFact struct {
+	text     string
+	fn       string
+	hasRelay bool
+	payload  string // SAMLRequest / SAMLResponse / ""
+	wellOK   bool
+	why      string
+}
+
+// analyseTemplate checks the structure the property needs of one template constant.
+func analyseTemplate(text string) (payload string, hasRelay bool, ok bool, why string) {
+	low := strings.ToLower(text)
+	if strings.Count(low, "<form") != 1 {
+		return "", false, false, "not exactly one <form"
+	}
+	if !strings.Contains(low, `method="post"`) {
+		return "", false, false, "form method is not POST"
+	}
+	if !strings.Contains(text, `action="{{.URL}}"`) {
+		return "", false, false, `form action is not "{{.URL}}"`
+	}
+	for _, p := range []string{"SAMLRequest", "SAMLResponse"} {
+		if strings.Contains(text, `<input type="hidden" name="`+p+`" value="{{.`+p+`}}" />`) {
+			if payload != "" {
+				return "", false, false, "both SAMLRequest and SAMLResponse inputs"
+			}
+			payload = p
+		}
+	}
+	if payload == "" {
+		return "", false, false, "no hidden SAMLRequest/SAMLResponse input bound to its field"
+	}
+	hasRelay = strings.Contains(text, `<input type="hidden" name="RelayState" value="{{.RelayState}}" />`)
+	// every action sits inside a double-quoted attribute value, and only the known fields are used
+	rest := text
+	n := 0
+	for {
+		i := strings.Index(rest, "{{")
+		if i < 0 {
+			break
+		}
+		j := strings.Index(rest[i:], "}}")
+		if j < 0 {
+			return "", false, false, "unterminated action"
+		}
+		act := rest[i : i+j+2]
+		switch act {
+		case "{{.URL}}", "{{." + payload + "}}", "{{.RelayState}}":
+		default:
+			return "", false, false, "unexpected template action " + act
+		}
+		if i == 0 || rest[i-1] != '"' || i+j+2 >= len(rest) || rest[i+j+2] != '"' {
+			return "", false, false, "action " + act + " is not a complete double-quoted attribute value"
+		}
+		if act == "{{.RelayState}}" && !hasRelay {
+			return "", false, false, "RelayState used outside its hidden input"
+		}
+		n++
+		rest = rest[i+j+2:]
+	}
+	want := 2
+	if hasRelay {
+		want = 3
+	}
+	if n != want {
+		return "", false, false, fmt.Sprintf("%d actions, expected %d", n, want)
+	}
+	if !strings.Contains(low, ".submit()") {
+		return "", false, false, "form is not auto-submitting"
+	}
+	return payload, hasRelay, true, ""
+}
+
+// templateFacts finds every constant passed to (*html/template.Template).Parse in the repo packages.
+func templateFacts(w *World) ([]tmplFact, []string) {
+	var facts []tmplFact
+	var problems []string
+	for _, sp := range w.RepoPkgs {
+		for _, fn := range allFuncs(sp) {
+			for _, b := range fn.Blocks {
+				for _, in := range b.Instrs {
+					c, ok := in.(*ssa.Call)
+					if !ok {
+						continue
+					}
+					callee := c.Call.StaticCallee()
+					if callee == nil || callee.Name() != "Parse" || callee.Pkg == nil {
+						continue
+					}
+					path := callee.Pkg.Pkg.Path()
+					if path != "html/template" && path != "text/template" {
+						continue
+					}
+					if path != "html/template" {
+						problems = append(problems, shortFn(fnKey(fn))+" parses a template with "+path)
+						continue
+					}
+					if len(c.Call.Args) < 2 {
+						continue
+					}
+					k, ok := c.Call.Args[1].(*ssa.Const)
+					if !ok || k.Value == nil || k.Value.Kind() != constant.String {
+						problems = append(problems, shortFn(fnKey(fn))+" parses a non-constant template")
+						continue
+					}
+					text := constant.StringVal(k.Value)
+					p, hr, okk, why := analyseTemplate(text)
+					facts = append(facts, tmplFact{text: text, fn: shortFn(fnKey(fn)), hasRelay: hr, payload: p, wellOK: okk, why: why})
+				}
+			}
+		}
+	}
+	return facts, problems
+}
+
+// registerTemplateAxioms turns the facts about the template constants into axioms for the ghost predicates.
+func registerTemplateAxioms(w *World) {
+	facts, _ := templateFacts(w)
+	if _, ok := w.GhostFuncs["tmplHasRelay"]; !ok {
+		return
+	}
+	w.Reg.DeclareFunc("ghost:tmplHasRelay", []string{SStr}, SBool)
+	w.Reg.DeclareFunc("ghost:tmplWellFormed", []string{SStr, SStr}, SBool)
+	seen := map[string]bool{}
+	for _, f := range facts {
+		if seen[f.text] {
+			continue
+		}
+		seen[f.text] = true
+		lit := w.Reg.StrLit(f.text)
+		var parts []*Term
+		parts = append(parts, Eq(w.Reg.Apply("ghost:tmplHasRelay", lit), BoolT(f.hasRelay)))
+		for _, p := range []string{"SAMLRequest", "SAMLResponse"} {
+			parts = append(parts, Eq(w.Reg.Apply("ghost:tmplWellFormed", lit, w.Reg.StrLit(p)), BoolT(f.wellOK && f.payload == p)))
+		}
+		w.Reg.AddAxiom(fmt.Sprintf("schema:template:%d", len(seen)), []string{lit.Name}, And(parts...))
+	}
+}
+
+// dataFieldsAreStrings: every value handed to (*html/template.Template).Execute is a struct of plain string fields.
+func dataFieldsAreStrings(w *World) (bool, string) {
+	n := 0
+	for _, sp := range w.RepoPkgs {
+		for _, fn := range allFuncs(sp) {
+			for _, b := range fn.Blocks {
+				for _, in := range b.Instrs {
+					c, ok := in.(*ssa.Call)
+					if !ok {
+						continue
+					}
+					callee := c.Call.StaticCallee()
+					if callee == nil || callee.Name() != "Execute" || callee.Pkg == nil || !strings.HasSuffix(callee.Pkg.Pkg.Path(), "/template") {
+						continue
+					}
+					if callee.Pkg.Pkg.Path() != "html/template" {
+						return false, shortFn(fnKey(fn)) + " executes a " + callee.Pkg.Pkg.Path() + " template"
+					}
+					mi, ok := c.Call.Args[2].(*ssa.MakeInterface)
+					if !ok {
+						return false, shortFn(fnKey(fn)) + ": template data is not a struct literal"
+					}
+					st, ok := mi.X.Type().Underlying().(*types.Struct)
+					if !ok {
+						return false, shortFn(fnKey(fn)) + ": template data is not a struct"
+					}
+					for i := 0; i < st.NumFields(); i++ {
+						if bt, ok := st.Field(i).Type().(*types.Basic); !ok || bt.Kind() != types.String {
+							return false, fmt.Sprintf("%s: template field %s has type %s (must be plain string so that html/template escapes it)", shortFn(fnKey(fn)), st.Field(i).Name(), st.Field(i).Type())
+						}
+					}
+					n++
+				}
+			}
+		}
+	}
+	if n == 0 {
+		return false, "no template execution found"
+	}
+	return true, fmt.Sprintf("%d template executions bind only plain string fields", n)
 }
 
 func schemaObligations(w *World, prop string) []*Obligation {
